@@ -673,20 +673,23 @@ Definition w_private : bytes := Eval vm_compute in B "SECRET-7f3a of secret.priv
 Definition w_ac : bytes := Eval vm_compute in B "!> allow-ips 10.0.0.1 &> cache server:full" ++ [10] ++ B "SECRET-7f3a for 10.0.0.1 only".
 Definition w_v6 : bytes := Eval vm_compute in B "!> allow-ips ::ffff:10.0.0.1 2001:db8::1" ++ [10] ++ B "SECRET-7f3a for two IPv6 clients".
 Definition w_hide : bytes := Eval vm_compute in B "!> hide" ++ [10] ++ B "SECRET-7f3a for nobody".
+Definition w_both : bytes := Eval vm_compute in B "!> hide &> allow-ips 10.0.0.1" ++ [10] ++ B "SECRET-7f3a hidden and listed".
 Definition w_plain : bytes := Eval vm_compute in B "public text".
 Definition w_fs (t : bytes) : option bytes :=
   if beq t (B "secret.private") then Some w_private
   else if beq t (B "ac.txt") then Some w_ac
   else if beq t (B "v6.txt") then Some w_v6
   else if beq t (B "h.txt") then Some w_hide
+  else if beq t (B "both.txt") then Some w_both
   else if beq t (B "p.txt") then Some w_plain
   else None.
 Definition w_err (s : N) : bytes := Eval vm_compute in B "<!DOCTYPE html><html><head><title>error</title></head></html>".
 Definition w_tmpl (args : list bytes) (b : bytes) : bytes := b.
 Definition w_get (p : bytes) (addr : N) : opx := XReq (mkReq M_GET p None [] addr).
-Definition w_run_err (err : N -> bytes) (fix_ext fix_lock fix_errline cache_on : bool) (ops : list opx) : list obsx :=
-  run_g fix_ext fix_lock fix_errline false w_fs err w_tmpl cache_on true true true true true true status_filter_drop
+Definition w_run_gen (err : N -> bytes) (tm : list bytes -> bytes -> bytes) (fix_ext fix_lock fix_errline cache_on : bool) (ops : list opx) : list obsx :=
+  run_g fix_ext fix_lock fix_errline false w_fs err tm cache_on true true true true true true status_filter_drop
         (fun _ => None) (fun r => r) (fun _ => None) (fun _ _ => false) (fun _ _ => []) (fun _ _ _ => []) clear_alias_fix [] 0 ops.
+Definition w_run_err (err : N -> bytes) := w_run_gen err w_tmpl.
 Definition w_run (fix_ext fix_lock cache_on : bool) (ops : list opx) : list obsx :=
   w_run_err w_err fix_ext fix_lock true cache_on ops.
 
@@ -705,6 +708,8 @@ Proof.
   { apply beq_eq in E2'. subst. intros H _. inversion H; subst. vm_compute. reflexivity. }
   destruct (beq t (B "h.txt")) eqn:E3.
   { apply beq_eq in E3. subst. intros H _. inversion H; subst. vm_compute. reflexivity. }
+  destruct (beq t (B "both.txt")) eqn:E3'.
+  { apply beq_eq in E3'. subst. intros H _. inversion H; subst. vm_compute. reflexivity. }
   destruct (beq t (B "p.txt")) eqn:E4; [|discriminate].
   intros H Hc. inversion H; subst. vm_compute in Hc. discriminate.
 Qed.
@@ -870,3 +875,507 @@ Section NotFound.
       destruct H as [H|H]; cbn in H; discriminate.
   Qed.
 End NotFound.
+
+(** ---------------------------------------------------------------------------
+    What the response cache can answer with: every stored variant was admitted when it was computed for a
+    request whose looked-up URI has the path of the key it is stored under (the repaired insert key). *)
+Definition key_path (k : key) : bytes := match k with KPath p => p | KPathQuery s i => firstn i s end.
+Lemma key_path_pq r : key_path (key_pq r) = rq_path r.
+Proof. unfold key_pq. pose proof (path_query_fst r) as H. destruct (path_query r) as [s i]. exact H. Qed.
+Lemma key_path_p r : key_path (key_p r) = rq_path r.
+Proof. reflexivity. Qed.
+Lemma insert_key_path r f : key_path (insert_key r f) = rq_path r.
+Proof. unfold insert_key. destruct (f_spref f =? SP_QUERY); [apply key_path_pq|apply key_path_p]. Qed.
+
+Section CacheAnswers.
+  Variable hstate : Type.
+  Variable compute : hstate -> request -> option (bytes * option bytes) -> bool -> fatx * hstate * list bytes.
+  Variable cache_on ims_on : bool.
+  Variable fix_clear fix_svary fix_qmkey fix_ims : bool.
+  Variable sfilter : N -> bool.
+  Variable parse_ims : bytes -> option Z.
+  Variable sanitize_ok : request -> bool.
+  Variable prime : request -> request.
+  Variable override : request -> option (bytes * option bytes).
+  Variable negotiate : request -> fatx -> option (N * bytes).
+  Variable vary_tuple : request -> option (bytes * option bytes) -> tuple.
+  Variable vary_header : request -> option (bytes * option bytes) -> fatx -> list (bytes * bytes).
+  Variable clear_alias : request -> option request.
+  (** [Q p x]: [x] is an acceptable answer to keep for the path [p] *)
+  Variable Q : bytes -> fatx -> Prop.
+  Notation cf hs r ov ok := (fst (fst (compute hs r ov ok))).
+  Hypothesis HQ : forall hs r0,
+    let r := prime r0 in let ov := override r0 in let ok := sanitize_ok r0 in
+    may_store_x cache_on sfilter (rq_method r) (cf hs r ov ok) = true -> Q (rq_path (lookup_req r ov)) (cf hs r ov ok).
+
+  Notation finishR := (finishX fix_svary negotiate vary_header).
+  Notation missR := (missX hstate compute cache_on ims_on true fix_svary sfilter negotiate vary_tuple vary_header).
+  Notation serveR := (serveX hstate compute cache_on ims_on true true fix_svary fix_qmkey fix_ims sfilter parse_ims sanitize_ok
+                             prime override negotiate vary_tuple vary_header).
+  Notation stepR := (stepX hstate compute cache_on ims_on true true fix_clear fix_svary fix_qmkey fix_ims sfilter parse_ims
+                           sanitize_ok prime override negotiate vary_tuple vary_header clear_alias).
+  Notation runR := (runX hstate compute cache_on ims_on true true fix_clear fix_svary fix_qmkey fix_ims sfilter parse_ims
+                         sanitize_ok prime override negotiate vary_tuple vary_header clear_alias).
+
+  Definition QInv (c : cachex) : Prop :=
+    forall k e v, xc_find k c = Some e -> In v (ex_vars e) -> Q (key_path k) (v_resp v).
+  (** the reply to [r0]: 304, or made ([finishX]) from a response computed now or from a kept one *)
+  Definition answer_from (r0 : request) (rp : replyx) : Prop :=
+    let r := prime r0 in let ov := override r0 in let ok := sanitize_ok r0 in
+    rx_status rp = 304 \/
+    exists x lm ca ma, rp = finishR r ov x lm ca ma /\
+                       ((exists hs, x = cf hs r ov ok) \/ Q (rq_path (lookup_req r ov)) x).
+
+  Lemma QInv_nil : QInv [].
+  Proof. intros k e v H. discriminate. Qed.
+  Lemma QInv_remove k c : QInv c -> QInv (xc_remove k c).
+  Proof. intros H k0 e0 v. rewrite xc_find_remove. destruct (key_eqb k0 k); [discriminate|]. apply H. Qed.
+  Lemma QInv_insert k e c :
+    QInv c -> (forall v, In v (ex_vars e) -> Q (key_path k) (v_resp v)) -> QInv (xc_insert k e c).
+  Proof.
+    intros H He k0 e0 v. rewrite xc_find_insert. destruct (key_eqb k0 k) eqn:E.
+    - apply key_eqb_eq in E. subst k0. intros H0; inversion H0; subst. apply He.
+    - apply H.
+  Qed.
+  Lemma QInv_lookup lr c now k res c' :
+    xlookup lr c now = ((k, res), c') -> QInv c ->
+    QInv c' /\ key_path k = rq_path lr /\
+    (forall e, res = Some e -> forall v, In v (ex_vars e) -> Q (rq_path lr) (v_resp v)).
+  Proof.
+    intros L I. destruct (xlookup_cases _ _ _ _ _ _ L) as (Hk & Hc & Hres).
+    assert (Kp : key_path k = rq_path lr) by (destruct Hk as [-> | ->]; [apply key_path_pq | apply key_path_p]).
+    split; [|split; [exact Kp|]].
+    - intros k0 e0 v F. destruct (Hc k0) as [E | [E _]]; rewrite E in F; [eapply I; exact F | discriminate].
+    - intros e -> v Hin. destruct Hres as (F & _ & _). rewrite <- Kp. eapply I; eassumption.
+  Qed.
+
+  Lemma miss_answers c1 hs now r0 st' rp lg :
+    QInv c1 -> missR c1 hs now (prime r0) (override r0) (sanitize_ok r0) = (st', rp, lg) ->
+    QInv (fst st') /\ answer_from r0 rp.
+  Proof.
+    intros Hc. unfold missX. pose proof (HQ hs r0) as HS. cbv zeta in HS.
+    set (r := prime r0) in *. set (ov := override r0) in *. set (ok := sanitize_ok r0) in *.
+    destruct (compute hs r ov ok) as [[x hs'] lg'] eqn:Ec. cbn [fst] in HS.
+    assert (A : forall lm ca ma, answer_from r0 (finishR r ov x lm ca ma)).
+    { intros lm ca ma. right. exists x, lm, ca, ma. split; [reflexivity|]. left. exists hs. fold r ov ok. rewrite Ec. reflexivity. }
+    destruct (may_store_x cache_on sfilter (rq_method r) x) eqn:Em; intros H; inversion H; subst st' rp lg; cbn [fst].
+    - split; [|apply A].
+      apply QInv_insert; [exact Hc|]. cbn [ex_vars]. intros v [<- | []]. cbn [v_resp].
+      rewrite insert_key_path. apply HS. reflexivity.
+    - split; [exact Hc | apply A].
+  Qed.
+
+  Lemma serve_answers st now r0 st' rp lg :
+    QInv (fst st) -> serveR st now r0 = (st', rp, lg) -> QInv (fst st') /\ answer_from r0 rp.
+  Proof.
+    destruct st as [c hs]. cbn [fst]. intros Hc. unfold serveX.
+    pose proof (HQ hs r0) as HS. cbv zeta in HS.
+    set (r := prime r0) in *. set (ok := sanitize_ok r0) in *. set (ov := override r0) in *.
+    destruct (negb cache_on) eqn:Eon.
+    { destruct (compute hs r ov ok) as [[x hs'] lg'] eqn:Ec.
+      intros H; inversion H; subst st' rp lg. cbn [fst]. split; [exact Hc|].
+      right. exists x, false, false, true. split; [reflexivity|]. left. exists hs. fold r ov ok. rewrite Ec. reflexivity. }
+    destruct (xlookup (lookup_req r ov) c now) as [[k found] c1] eqn:El.
+    destruct (QInv_lookup _ _ _ _ _ _ El Hc) as (Hc1 & Kp & Hfound).
+    destruct found as [e|]; [|apply miss_answers; exact Hc1].
+    destruct (ok && get_or_head (rq_method r)); [|apply miss_answers; exact Hc1].
+    pose proof (Hfound e eq_refl) as Hq.
+    match goal with |- (if ?b then _ else _) = _ -> _ => destruct b end.
+    { intros H; inversion H; subst st' rp lg. cbn [fst]. split; [exact Hc1|]. left. reflexivity. }
+    destruct (xv_find (vary_tuple r ov) (ex_vars e)) as [v|] eqn:Ev.
+    { intros H; inversion H; subst st' rp lg. cbn [fst]. split; [exact Hc1|].
+      right. exists (v_resp v), ims_on, true, false. split; [reflexivity|]. right.
+      apply xv_find_in in Ev as [Ev _]. apply Hq, Ev. }
+    unfold vary_missingX.
+    destruct (compute hs r ov ok) as [[x hs'] lg'] eqn:Ec. cbn [fst] in HS.
+    assert (A : answer_from r0 (finishR r ov x ims_on true false)).
+    { right. exists x, ims_on, true, false. split; [reflexivity|]. left. exists hs. fold r ov ok. rewrite Ec. reflexivity. }
+    destruct (may_store_x cache_on sfilter (rq_method r) x && (negb fix_qmkey || qm_key_ok k x)) eqn:Ea;
+      intros H; inversion H; subst st' rp lg; cbn [fst]; (split; [|exact A]); [|exact Hc1].
+    apply andb_true_iff in Ea as [Ea _].
+    apply QInv_insert; [exact Hc1|]. cbn [ex_vars]. intros v [<- | Hin]; rewrite Kp.
+    - cbn [v_resp]. apply HS, Ea.
+    - apply Hq, Hin.
+  Qed.
+
+  Definition obs_ans (o : opx) (ob : obsx) : Prop :=
+    match o, ob with
+    | XReq r0, XbReply rp _ => answer_from r0 rp
+    | _, _ => True
+    end.
+
+  Lemma step_answers st now o st' now' ob :
+    QInv (fst st) -> stepR st now o = (st', now', ob) -> QInv (fst st') /\ obs_ans o ob.
+  Proof.
+    intros Hc. destruct o as [r|r| |ms]; cbn [stepX].
+    - destruct (serveR st now r) as [[st1 rp] lg] eqn:Es.
+      intros H; inversion H; subst. cbn [obs_ans]. eapply serve_answers; eassumption.
+    - destruct st as [c hs]. intros H; inversion H; subst. cbn [fst obs_ans]. split; [|exact I].
+      unfold xclear_page, xclear_uri. destruct (if fix_clear then clear_alias r else None); repeat apply QInv_remove; exact Hc.
+    - destruct st as [c hs]. intros H; inversion H; subst. cbn [fst obs_ans]. split; [apply QInv_nil|exact I].
+    - intros H; inversion H; subst. split; [exact Hc|exact I].
+  Qed.
+
+  Lemma run_answers ops : forall st now, QInv (fst st) -> Forall2 obs_ans ops (runR st now ops).
+  Proof.
+    induction ops as [|o ops IH]; intros st now Hc; cbn [runX]; [constructor|].
+    destruct (stepR st now o) as [[st' now'] ob] eqn:Es.
+    destruct (step_answers _ _ _ _ _ _ Hc Es) as [Hc' Hob].
+    constructor; [exact Hob|]. apply IH. exact Hc'.
+  Qed.
+End CacheAnswers.
+
+(** ---------------------------------------------------------------------------
+    "the answer is the host's 404", above the cache, for every history. *)
+Lemma first_tmpl_none es : has_name N_TMPL es = false -> first_tmpl es = None.
+Proof.
+  unfold first_tmpl. induction es as [|e es IH]; [reflexivity|]. cbn [has_name existsb find].
+  intros H. apply orb_false_iff in H as [H1 H2]. rewrite H1. apply IH, H2.
+Qed.
+Lemma unlisted_has_allow addr es : listed addr es = false -> has_name N_ALLOW es = true.
+Proof.
+  induction es as [|e es IH]; cbn [listed forallb has_name existsb]; [discriminate|].
+  intros H. apply andb_false_iff in H as [H|H].
+  - destruct (beq (fst e) N_ALLOW); [reflexivity | discriminate].
+  - apply orb_true_iff. right. apply IH, H.
+Qed.
+
+Definition INTERNAL : bytes := Eval vm_compute in B "/./".
+(** a request that has to be refused: it passes sanitize, no Prime extension overrides its URI, its (rewritten)
+    path is not an internal one and names a readable file that is hidden / private, or marked [allow-ips]
+    without listing the client's address (the file's line has no [tmpl] directive) *)
+Definition refused (fs : bytes -> option bytes) (prime : request -> request)
+           (override : request -> option (bytes * option bytes)) (r0 : request) : Prop :=
+  sanitize_ok_g r0 = true /\ override r0 = None /\
+  let r := prime r0 in
+  starts_with INTERNAL (rq_path r) = false /\ get_or_head (rq_method r) = true /\
+  exists t c, served_file (rq_path r) = Ok (Some t) /\ fs t = Some c /\ has_name N_TMPL (entries_of c) = false /\
+              (is_hidden t c = true \/ listed (rq_addr r) (entries_of c) = false).
+(** the host's 404 — or Not Modified for a conditional request when that 404 is in the cache, or 406 when the
+    client accepts no representation of it *)
+Definition reply_404 (errpage : N -> bytes) (rp : replyx) : Prop :=
+  rx_status rp = 304 \/ rx_status rp = 406 \/
+  (rx_status rp = 404 /\ rx_body rp = host_404_body errpage /\ rx_identity rp = host_404_body errpage).
+Definition refused_ok (fs : bytes -> option bytes) (errpage : N -> bytes) (prime : request -> request)
+           (override : request -> option (bytes * option bytes)) (o : opx) (ob : obsx) : Prop :=
+  match o, ob with
+  | XReq r0, XbReply rp _ => refused fs prime override r0 -> reply_404 errpage rp
+  | _, _ => True
+  end.
+
+Section Refused.
+  Variable cors : bool.
+  Variable fs : bytes -> option bytes.
+  Variable errpage : N -> bytes.
+  Variable tmpl : list bytes -> bytes -> bytes.
+  Variable sfilter : N -> bool.
+  Variable prime : request -> request.
+  Variable override : request -> option (bytes * option bytes).
+  (** no error page is a template *)
+  Hypothesis Hnt : forall s, has_name N_TMPL (entries_of (errpage s)) = false.
+  (** the host's status filter keeps 400 and 416 out of the cache (the default filter does) *)
+  Hypothesis Hsf : sfilter 400 = true /\ sfilter 416 = true.
+  (** the URIs Prime extensions answer with are internal ones *)
+  Hypothesis Hov : forall r0 p q, override r0 = Some (p, q) -> starts_with INTERNAL p = true.
+
+  Notation H404 := (host_404_body errpage).
+  Notation LB := (layer_b true true true cors fs errpage tmpl).
+  Notation stepv := (step true true errpage tmpl).
+  Notation is404v := (is404 errpage).
+
+  Lemma Hnt404 : first_tmpl (entries_of (errpage 404)) = None.
+  Proof. apply first_tmpl_none, Hnt. Qed.
+
+  Lemma fold_404_or_status addr es st :
+    no_tmpl es -> is404v (fold_left (stepv addr) es st) \/ ps_status (fold_left (stepv addr) es st) = ps_status st.
+  Proof.
+    revert st; induction es as [|e es IH]; intros st Hn; cbn [fold_left]; [right; reflexivity|].
+    inversion Hn as [|? ? Hne Hn']; subst.
+    destruct (step_shape true errpage tmpl addr st e) as [[_ E]|[[_ E]|(_ & _ & _ & Es & _)]].
+    - left. rewrite E. apply is404_fold; [exact Hnt404 | exact Hn' | apply is404_hide, Hnt404].
+    - rewrite E. unfold do_allow. destruct (existsb (arg_matches addr) (snd e)).
+      + destruct (IH (mkP (ps_status st) (ps_headers st) (ps_body st) SP_NONE CChanging true) Hn') as [H|H]; [left; exact H | right; exact H].
+      + left. apply is404_fold; [exact Hnt404 | exact Hn' |]. split; [reflexivity|]. cbn [ps_body to_error]. apply allow_body_404.
+    - destruct (IH (stepv addr st e) Hn') as [H|H]; [left; exact H | right; congruence].
+  Qed.
+
+  (** the answer to a request that fails sanitize, for any path: the 400 / 416 page, or the host's 404 *)
+  Lemma sanitize_answer r ov :
+    (f_status (LB r ov false) = 404 /\ f_body (LB r ov false) = H404) \/
+    f_status (LB r ov false) = 400 \/ f_status (LB r ov false) = 416.
+  Proof.
+    unfold layer_b, base. cbn [negb].
+    set (code := match PathSan.sanitize_path (rq_path r) with Ok _ => 416 | _ => 400 end).
+    assert (Hcode : code = 400 \/ code = 416) by (unfold code; destruct (PathSan.sanitize_path (rq_path r)); auto).
+    unfold present. cbn [ps_body err_pst].
+    pose proof (Hnt code) as Hn. rewrite entries_of_line in Hn.
+    assert (G : forall st : pst, is404v st -> (f_status (fat_of st) = 404 /\ f_body (fat_of st) = H404) \/
+                                              f_status (fat_of st) = 400 \/ f_status (fat_of st) = 416)
+      by (intros st [A B0]; left; split; assumption).
+    destruct (line_of (errpage code)) as [p|].
+    - apply no_tmpl_b in Hn.
+      destruct (private_hit true (rq_path r)).
+      + apply G. apply is404_fold; [exact Hnt404 | exact Hn | apply is404_hide, Hnt404].
+      + match goal with |- context [fold_left ?f ?es ?st] => destruct (fold_404_or_status (rq_addr r) es st Hn) as [H|H] end.
+        * apply G, H.
+        * right. cbn [f_status fat_of]. rewrite H. cbn [ps_status]. destruct Hcode as [-> | ->]; auto.
+    - cbn [fold_left]. destruct (private_hit true (rq_path r)); [apply G, is404_hide, Hnt404|].
+      right. cbn [f_status fat_of ps_status err_pst]. destruct Hcode as [-> | ->]; auto.
+  Qed.
+
+  (** a path under which only the host's 404 may be kept *)
+  Definition guarded_path (p : bytes) : Prop :=
+    starts_with INTERNAL p = false /\
+    exists t c, served_file p = Ok (Some t) /\ fs t = Some c /\ has_name N_TMPL (entries_of c) = false /\ guarded t c = true.
+  Definition Q404 (p : bytes) (x : fatx) : Prop :=
+    guarded_path p -> f_status (fx_fat x) = 404 /\ f_body (fx_fat x) = H404.
+
+  Lemma stored_is_404 cache_on hs r0 :
+    let r := prime r0 in let ov := override r0 in let ok := sanitize_ok_g r0 in
+    may_store_x cache_on sfilter (rq_method r) (fst (fst (compute_g true true true cors fs errpage tmpl hs r ov ok))) = true ->
+    Q404 (rq_path (lookup_req r ov)) (fst (fst (compute_g true true true cors fs errpage tmpl hs r ov ok))).
+  Proof.
+    cbv zeta. cbn [compute_g fst]. intros Hs [Hint (t & c & Es & Ef & Hntc & Hg)].
+    cbn [fx_fat plain].
+    unfold may_store_x, wants_cache_x in Hs. cbn [fx_fat plain is_stream fx_stream negb andb] in Hs.
+    apply andb_true_iff in Hs as [Hs _]. apply andb_true_iff in Hs as [Hs _].
+    apply andb_true_iff in Hs as [Hs Hgh]. apply andb_true_iff in Hs as [Hs Hsf'].
+    apply andb_true_iff in Hs as [_ Hpc].
+    destruct (override r0) as [[p' q']|] eqn:Eov.
+    { cbn [lookup_req rq_path] in Hint. rewrite (Hov _ _ _ Eov) in Hint. discriminate. }
+    cbn [lookup_req] in *.
+    destruct (sanitize_ok_g r0).
+    - unfold guarded in Hg. destruct (is_hidden t c) eqn:Eh.
+      + apply (guarded_answer_is_404_lemma cors fs errpage tmpl Hnt404 (prime r0) None t c Es Ef Hgh (andb_false_r _) Hntc).
+        left. exact Eh.
+      + cbn [orb] in Hg. exfalso.
+        rewrite (allow_ips_spref_none true errpage tmpl cors fs (prime r0) None t c Es Ef Eh Hg Hgh) in Hpc by (apply andb_false_r).
+        discriminate.
+    - destruct (sanitize_answer (prime r0) None) as [H | [H | H]]; [exact H | |]; rewrite H in Hsf'; destruct Hsf as [S1 S2];
+        [rewrite S1 in Hsf' | rewrite S2 in Hsf']; discriminate.
+  Qed.
+
+  Lemma refused_reply_is_404_lemma :
+    forall cache_on ims_on fix_clear fix_svary fix_qmkey fix_ims parse_ims refuses vary_tuple vary_header clear_alias now ops,
+      Forall2 (refused_ok fs errpage prime override) ops
+        (run_g true true true cors fs errpage tmpl cache_on ims_on true fix_clear fix_svary fix_qmkey fix_ims
+               sfilter parse_ims prime override refuses vary_tuple vary_header clear_alias [] now ops).
+  Proof.
+    intros. unfold run_g.
+    pose proof (run_answers unit (compute_g true true true cors fs errpage tmpl) cache_on ims_on
+                  fix_clear fix_svary fix_qmkey fix_ims sfilter parse_ims sanitize_ok_g prime override
+                  (negotiate_g errpage refuses) vary_tuple vary_header clear_alias Q404
+                  (stored_is_404 cache_on) ops ([], tt) now (QInv_nil Q404)) as Hall.
+    eapply Forall2_mono; [|exact Hall]. intros o ob Ho.
+    destruct o as [r0|r0| |ms], ob as [rp lg| |]; cbn [refused_ok obs_ans] in *; auto.
+    intros (Hok & Hovn & Hint & Hgh & t & c & Es & Ef & Hntc & Hcase).
+    unfold answer_from in Ho. rewrite Hok, Hovn in Ho. cbn [lookup_req] in Ho.
+    destruct Ho as [H304 | (x & lm & ca & ma & -> & Hx)]; [left; exact H304|].
+    assert (Hx404 : f_status (fx_fat x) = 404 /\ f_body (fx_fat x) = H404).
+    { destruct Hx as [[hs ->] | Hq].
+      - cbn [compute_g fst fx_fat plain].
+        apply (guarded_answer_is_404_lemma cors fs errpage tmpl Hnt404 (prime r0) None t c Es Ef Hgh (andb_false_r _) Hntc Hcase).
+      - apply Hq. split; [exact Hint|]. exists t, c. repeat split; auto.
+        unfold guarded. destruct Hcase as [Hh | Hl]; [rewrite Hh; reflexivity|].
+        apply unlisted_has_allow in Hl. unfold is_allow_ips. rewrite Hl. apply orb_true_r. }
+    destruct Hx404 as [S Bd]. unfold finishX, negotiate_g.
+    destruct (is_stream x).
+    - right; right. cbn [rx_status rx_body rx_identity]. auto.
+    - destruct (refuses (prime r0) x); cbn [rx_status rx_body rx_identity]; [right; left; reflexivity | right; right; auto].
+  Qed.
+End Refused.
+
+(** ---------------------------------------------------------------------------
+    The cache layer looks at the layer below only through its results. *)
+Section RunExt.
+  Variable hstate : Type.
+  Variable compute1 compute2 : hstate -> request -> option (bytes * option bytes) -> bool -> fatx * hstate * list bytes.
+  Hypothesis Hext : forall hs r ov ok, compute1 hs r ov ok = compute2 hs r ov ok.
+  Variable cache_on ims_on fix_vary fix_ovkey fix_clear fix_svary fix_qmkey fix_ims : bool.
+  Variable sfilter : N -> bool.
+  Variable parse_ims : bytes -> option Z.
+  Variable sanitize_ok : request -> bool.
+  Variable prime : request -> request.
+  Variable override : request -> option (bytes * option bytes).
+  Variable negotiate : request -> fatx -> option (N * bytes).
+  Variable vary_tuple : request -> option (bytes * option bytes) -> tuple.
+  Variable vary_header : request -> option (bytes * option bytes) -> fatx -> list (bytes * bytes).
+  Variable clear_alias : request -> option request.
+
+  Lemma missX_ext c1 hs now r ov ok :
+    missX hstate compute1 cache_on ims_on fix_ovkey fix_svary sfilter negotiate vary_tuple vary_header c1 hs now r ov ok =
+    missX hstate compute2 cache_on ims_on fix_ovkey fix_svary sfilter negotiate vary_tuple vary_header c1 hs now r ov ok.
+  Proof. unfold missX. rewrite Hext. reflexivity. Qed.
+  Lemma vary_missingX_ext c1 hs now r ov ok k e :
+    vary_missingX hstate compute1 cache_on ims_on fix_vary fix_svary fix_qmkey sfilter negotiate vary_tuple vary_header c1 hs now r ov ok k e =
+    vary_missingX hstate compute2 cache_on ims_on fix_vary fix_svary fix_qmkey sfilter negotiate vary_tuple vary_header c1 hs now r ov ok k e.
+  Proof. unfold vary_missingX. rewrite Hext. reflexivity. Qed.
+  Lemma serveX_ext st now r0 :
+    serveX hstate compute1 cache_on ims_on fix_vary fix_ovkey fix_svary fix_qmkey fix_ims sfilter parse_ims sanitize_ok prime override
+           negotiate vary_tuple vary_header st now r0 =
+    serveX hstate compute2 cache_on ims_on fix_vary fix_ovkey fix_svary fix_qmkey fix_ims sfilter parse_ims sanitize_ok prime override
+           negotiate vary_tuple vary_header st now r0.
+  Proof.
+    unfold serveX. destruct st as [c hs].
+    destruct (negb cache_on); [rewrite Hext; reflexivity|].
+    destruct (xlookup (lookup_req (prime r0) (override r0)) c now) as [[k found] c1].
+    destruct found as [e|]; [|apply missX_ext].
+    destruct (sanitize_ok r0 && get_or_head (rq_method (prime r0))); [|apply missX_ext].
+    match goal with |- (if ?b then _ else _) = _ => destruct b; [reflexivity|] end.
+    destruct (xv_find _ _); [reflexivity | apply vary_missingX_ext].
+  Qed.
+  Lemma runX_ext ops : forall st now,
+    runX hstate compute1 cache_on ims_on fix_vary fix_ovkey fix_clear fix_svary fix_qmkey fix_ims sfilter parse_ims sanitize_ok prime
+         override negotiate vary_tuple vary_header clear_alias st now ops =
+    runX hstate compute2 cache_on ims_on fix_vary fix_ovkey fix_clear fix_svary fix_qmkey fix_ims sfilter parse_ims sanitize_ok prime
+         override negotiate vary_tuple vary_header clear_alias st now ops.
+  Proof.
+    induction ops as [|o ops IH]; intros st now; cbn [runX]; [reflexivity|].
+    assert (E : stepX hstate compute1 cache_on ims_on fix_vary fix_ovkey fix_clear fix_svary fix_qmkey fix_ims sfilter parse_ims
+                      sanitize_ok prime override negotiate vary_tuple vary_header clear_alias st now o =
+                stepX hstate compute2 cache_on ims_on fix_vary fix_ovkey fix_clear fix_svary fix_qmkey fix_ims sfilter parse_ims
+                      sanitize_ok prime override negotiate vary_tuple vary_header clear_alias st now o).
+    { destruct o; cbn [stepX]; [rewrite serveX_ext|..]; reflexivity. }
+    rewrite E. destruct (stepX _ compute2 _ _ _ _ _ _ _ _ _ _ _ _ _ _ _ _ _ st now o) as [[st' now'] ob].
+    rewrite IH. reflexivity.
+  Qed.
+End RunExt.
+
+(** ---------------------------------------------------------------------------
+    No history tells whether a hidden file exists: a file that is hidden / private and whose [!> ] line carries
+    nothing but [hide] (and names that are not mounted) can be removed without changing any observation
+    (status, headers, bodies, last-modified, whether the reply came from the cache), on a host whose error
+    pages carry no [!> ] line. *)
+Definition neutral_name (n : bytes) : bool :=
+  negb (beq n N_HIDE || beq n N_ALLOW || beq n N_CACHE || beq n N_DOWNLOAD || beq n N_TMPL).
+Definition plain_hidden (t c : bytes) : Prop :=
+  is_hidden t c = true /\ forallb (fun e => beq (fst e) N_HIDE || neutral_name (fst e)) (entries_of c) = true.
+
+Section Indistinguishable.
+  Variable cors : bool.
+  Variable fs fs' : bytes -> option bytes.
+  Variable errpage : N -> bytes.
+  Variable tmpl : list bytes -> bytes -> bytes.
+  Hypothesis Herr_plain : forall s, line_of (errpage s) = None.
+  (** [fs'] is [fs] without some plainly hidden files *)
+  Hypothesis Hfs' : forall x, fs' x = fs x \/ (fs' x = None /\ exists c, fs x = Some c /\ plain_hidden x c).
+
+  Notation E404 := (err_pst errpage 404 SP_FULL).
+  Notation stepv := (step true true errpage tmpl).
+
+  Lemma hide_plain st : ps_spref st = SP_FULL -> ps_cpref st = CFull -> do_hide true errpage tmpl st = E404.
+  Proof.
+    intros H1 H2. unfold do_hide, to_error, err_pst, error_body_hide. rewrite Herr_plain, H1, H2. reflexivity.
+  Qed.
+
+  Lemma fold_plain addr es st :
+    forallb (fun e => beq (fst e) N_HIDE || neutral_name (fst e)) es = true ->
+    ps_spref st = SP_FULL -> ps_cpref st = CFull ->
+    fold_left (stepv addr) es st = if has_name N_HIDE es then E404 else st.
+  Proof.
+    revert st; induction es as [|[name args] es IH]; intros st Ha H1 H2; cbn [fold_left has_name existsb forallb fst] in *; [reflexivity|].
+    apply andb_true_iff in Ha as [Ha Hr]. unfold has_name in IH.
+    destruct (beq name N_HIDE) eqn:Eh; cbn [orb] in *.
+    - assert (Est : stepv addr st (name, args) = E404) by (unfold step; rewrite Eh; apply hide_plain; assumption).
+      rewrite Est, (IH E404 Hr eq_refl eq_refl).
+      destruct (existsb _ es); reflexivity.
+    - unfold neutral_name in Ha. rewrite Eh in Ha. cbn [orb] in Ha. apply negb_true_iff in Ha.
+      apply orb_false_iff in Ha as [Ha E5]. apply orb_false_iff in Ha as [Ha E4]. apply orb_false_iff in Ha as [E2 E3].
+      assert (Est : stepv addr st (name, args) = st) by (unfold step; rewrite Eh, E2, E3, E4, E5; reflexivity).
+      rewrite Est. apply IH; assumption.
+  Qed.
+
+  Lemma present_err404 r : present true true true errpage tmpl r E404 = E404.
+  Proof.
+    unfold present. cbn [ps_body err_pst]. rewrite Herr_plain. cbn [fold_left].
+    destruct (private_hit true (rq_path r)); [apply hide_plain; reflexivity | reflexivity].
+  Qed.
+
+  (** a plainly hidden file is answered exactly as a missing one *)
+  Lemma present_plain_hidden r t c :
+    served_file (rq_path r) = Ok (Some t) -> plain_hidden t c ->
+    present true true true errpage tmpl r (file_pst c) = E404.
+  Proof.
+    intros Es [Hh Hp]. pose proof (private_hit_served _ _ Es) as Hpr.
+    unfold present. cbn [ps_body file_pst]. unfold is_hidden in Hh. rewrite <- Hpr in Hh.
+    rewrite entries_of_line in Hh, Hp.
+    destruct (line_of c) as [p|].
+    - cbn [ps_status ps_headers ps_spref ps_cpref ps_locked file_pst].
+      destruct (private_hit true (rq_path r)).
+      + rewrite hide_plain by reflexivity. rewrite fold_plain by (assumption || reflexivity).
+        destruct (has_name N_HIDE (PresentLine.p_entries p)); reflexivity.
+      + cbn [orb] in Hh. rewrite fold_plain by (assumption || reflexivity). rewrite Hh. reflexivity.
+    - cbn [fold_left]. destruct (private_hit true (rq_path r)); [apply hide_plain; reflexivity|].
+      cbn in Hh. discriminate.
+  Qed.
+
+  Lemma layer_b_same r ov ok :
+    layer_b true true true cors fs errpage tmpl r ov ok = layer_b true true true cors fs' errpage tmpl r ov ok.
+  Proof.
+    unfold layer_b, base. destruct (negb ok); [reflexivity|].
+    destruct (served_file (rq_path r)) as [[t|]|e|] eqn:Es; try reflexivity.
+    destruct (cors && is_cors_fail ov); [reflexivity|].
+    destruct (get_or_head (rq_method r)); [|reflexivity].
+    destruct (Hfs' t) as [E | [E (c & Ec & Hp)]]; rewrite E; [reflexivity|]. rewrite Ec.
+    rewrite (present_plain_hidden r t c Es Hp), present_err404. reflexivity.
+  Qed.
+
+  Lemma hidden_file_indistinguishable_lemma :
+    forall cache_on ims_on fix_ovkey fix_clear fix_svary fix_qmkey fix_ims sfilter parse_ims prime override refuses
+           vary_tuple vary_header clear_alias c now ops,
+      run_g true true true cors fs errpage tmpl cache_on ims_on fix_ovkey fix_clear fix_svary fix_qmkey fix_ims
+            sfilter parse_ims prime override refuses vary_tuple vary_header clear_alias c now ops =
+      run_g true true true cors fs' errpage tmpl cache_on ims_on fix_ovkey fix_clear fix_svary fix_qmkey fix_ims
+            sfilter parse_ims prime override refuses vary_tuple vary_header clear_alias c now ops.
+  Proof.
+    intros. unfold run_g. apply runX_ext. intros hs r ov ok. unfold compute_g. rewrite layer_b_same. reflexivity.
+  Qed.
+End Indistinguishable.
+
+(** ---------------------------------------------------------------------------
+    The code before the repair of this property's third defect ([fix_errline = false]): on a host whose
+    [errors/404.html] starts with a [!> ] line, the answer for a private file carries that line while the
+    answer for a path that does not exist does not - the two are told apart.  With the repair they are equal. *)
+Definition w_err_line (s : N) : bytes :=
+  Eval vm_compute in B "!> cache client:none" ++ [10] ++ B "<html>nothing here</html>".
+Definition w_bodies (obs : list obsx) : list (N * bytes) :=
+  map (fun ob => match ob with XbReply rp _ => (rx_status rp, rx_body rp) | _ => (0, []) end) obs.
+Definition w_twins : list opx := [w_get (B "/secret.private") 2; w_get (B "/nothing-here") 2; w_get (B "/ac.txt") 2].
+Lemma error_page_line_v0_refuted_lemma :
+  exists b1 b2 b3, w_bodies (w_run_err w_err_line true true false true w_twins) = [(404, b1); (404, b2); (404, b3)] /\
+                   b1 <> b2 /\ b3 <> b2.
+Proof. eexists. eexists. eexists. split; [vm_compute; reflexivity|]. split; discriminate. Qed.
+Lemma error_page_line_repaired_lemma :
+  w_bodies (w_run_err w_err_line true true true true w_twins) =
+    [(404, host_404_body w_err_line); (404, host_404_body w_err_line); (404, host_404_body w_err_line)].
+Proof. vm_compute. reflexivity. Qed.
+
+(** KNOWN class allow-ips-404-template-unrendered: on a host whose [errors/404.html] is a [!> tmpl] template, [hide]
+    renders the page but [allow-ips] puts it in place as it is.  For a file that is hidden AND carries an
+    [allow-ips] directive after the [hide], the answer to an unlisted client is then not the host's 404
+    ([refused_reply_is_404] has the hypothesis that no error page is a template). *)
+Definition w_err_tmpl (s : N) : bytes := Eval vm_compute in B "!> tmpl page" ++ [10] ++ B "<html>$[title]</html>".
+Definition w_render (args : list bytes) (b : bytes) : bytes := B "rendered " ++ b.
+Definition w_both_twins : list opx := [w_get (B "/both.txt") 2; w_get (B "/nothing-here") 2; w_get (B "/h.txt") 2].
+Lemma allow_404_template_refuted_lemma :
+  exists b1 b2, w_bodies (w_run_gen w_err_tmpl w_render true true true true w_both_twins) = [(404, b1); (404, b2); (404, b2)] /\ b1 <> b2.
+Proof. eexists. eexists. split; [vm_compute; reflexivity | discriminate]. Qed.
+
+(** KNOWN class tmpl-names-guarded-file: the concrete template engine (Model/Templates.v over the fixture tree) on a
+    host where the PUBLIC page [t.html] names [../public/s.private] as its template file: every client receives the
+    [$[x]] block of the private file (the hypothesis "templates introduce no guarded content" of
+    [guarded_content_confined] fails there). *)
+Definition w_tmpl_files : list (bytes * bytes) :=
+  Eval vm_compute in
+  [ (B "public/s.private", B "$[x]" ++ [10] ++ B "SECRET-7f3a in a block of a private file" ++ [10] ++ B "$[y]" ++ [10] ++ B "more");
+    (B "public/t.html", B "!> tmpl ../public/s.private" ++ [10] ++ B "<html>public page: $[x]</html>");
+    (B "templates/main", B "$[title]" ++ [10] ++ B "a template" ++ [10]) ].
+Definition w_tmpl_cfg : gconfig := mkG true false true w_tmpl_files [] [] 500.
+Lemma tmpl_names_guarded_file_refuted_lemma :
+  violates (fs_of_tree (tree_of w_tmpl_files)) W_SECRET [w_get (B "/t.html") 2]
+           (run_gcfg true true true w_tmpl_cfg [w_get (B "/t.html") 2]).
+Proof.
+  exists 0%nat. eexists. eexists. eexists.
+  split; [reflexivity|]. split; [vm_compute; reflexivity|].
+  split; [vm_compute; reflexivity|]. apply permitted_b_false. vm_compute. reflexivity.
+Qed.
